@@ -489,6 +489,215 @@ package catalog
 //@   oncallback keeps m.mx, m.data, m.order
 //@   ensures m.mx == 0
 
+// ---------------------------------------------------------------- iteration with callbacks (C16)
+// The callback runs with the lock held (read lock for Each / EachReverse / EachSafe / Find, write lock for Map) and is
+// ASSUMED not to touch the collection's own fields (oncallback keeps); the method releases the lock on every path and
+// leaves the order - for Map also the key set - as it was.
+//@ func (*UserTypes).Each
+//@   tag C16 C01
+//@   requires m != nil && m.mx == 0 && fn != nil
+//@   oncallback requires m.mx == 1
+//@   oncallback keeps m.mx, m.data, m.order
+//@   ensures m.mx == 0 && m.order == old(m.order) && m.data == old(m.data)
+//@   loop 1 invariant m.mx == 1 && m.order == old(m.order) && m.data == old(m.data) && 0 - 1 <= rangeindex && rangeindex <= rangelen - 1 && rangelen == len(m.order)
+//@   loop 1 decreases rangelen - rangeindex
+//@ func (*UserTypes).EachReverse
+//@   tag C16 C01
+//@   requires m != nil && m.mx == 0 && fn != nil
+//@   oncallback requires m.mx == 1
+//@   oncallback keeps m.mx, m.data, m.order
+//@   ensures m.mx == 0 && m.order == old(m.order) && m.data == old(m.data)
+//@   loop 1 invariant m.mx == 1 && m.order == old(m.order) && m.data == old(m.data) && i < len(m.order)
+//@   loop 1 decreases i + 1
+//@ func (*UserTypes).EachSafe
+//@   tag C16 C01
+//@   requires m != nil && m.mx == 0 && fn != nil
+//@   oncallback requires m.mx == 1
+//@   oncallback keeps m.mx, m.data, m.order
+//@   ensures m.mx == 0 && m.order == old(m.order) && m.data == old(m.data)
+//@   loop 1 invariant m.mx == 1 && m.order == old(m.order) && m.data == old(m.data) && 0 - 1 <= rangeindex && rangeindex <= rangelen - 1 && rangelen == len(m.order)
+//@   loop 1 decreases rangelen - rangeindex
+//@ func (*UserTypes).Find
+//@   tag C16 C01
+//@   requires m != nil && m.mx == 0 && fn != nil
+//@   oncallback requires m.mx == 1
+//@   oncallback keeps m.mx, m.data, m.order
+//@   ensures m.mx == 0 && m.order == old(m.order) && m.data == old(m.data)
+//@   loop 1 invariant m.mx == 1 && m.order == old(m.order) && m.data == old(m.data) && 0 - 1 <= rangeindex && rangeindex <= rangelen - 1 && rangelen == len(m.order)
+//@   loop 1 decreases rangelen - rangeindex
+//@ func (*UserTypes).Map
+//@   tag C16 C01
+//@   requires m != nil && m.mx == 0 && fn != nil && m.data != nil
+//@   oncallback requires m.mx == 2
+//@   oncallback keeps m.mx, m.data, m.order
+//@   ensures m.mx == 0 && m.order == old(m.order) && m.data == old(m.data)
+//@   loop 1 invariant m.mx == 2 && m.order == old(m.order) && m.data == old(m.data) && 0 - 1 <= rangeindex && rangeindex <= rangelen - 1 && rangelen == len(m.order)
+//@   loop 1 decreases rangelen - rangeindex
+
+//@ func (*Tags).Each
+//@   tag C16 C01
+//@   requires m != nil && m.mx == 0 && fn != nil
+//@   oncallback requires m.mx == 1
+//@   oncallback keeps m.mx, m.data, m.order
+//@   ensures m.mx == 0 && m.order == old(m.order) && m.data == old(m.data)
+//@   loop 1 invariant m.mx == 1 && m.order == old(m.order) && m.data == old(m.data) && 0 - 1 <= rangeindex && rangeindex <= rangelen - 1 && rangelen == len(m.order)
+//@   loop 1 decreases rangelen - rangeindex
+//@ func (*Tags).EachReverse
+//@   tag C16 C01
+//@   requires m != nil && m.mx == 0 && fn != nil
+//@   oncallback requires m.mx == 1
+//@   oncallback keeps m.mx, m.data, m.order
+//@   ensures m.mx == 0 && m.order == old(m.order) && m.data == old(m.data)
+//@   loop 1 invariant m.mx == 1 && m.order == old(m.order) && m.data == old(m.data) && i < len(m.order)
+//@   loop 1 decreases i + 1
+//@ func (*Tags).EachSafe
+//@   tag C16 C01
+//@   requires m != nil && m.mx == 0 && fn != nil
+//@   oncallback requires m.mx == 1
+//@   oncallback keeps m.mx, m.data, m.order
+//@   ensures m.mx == 0 && m.order == old(m.order) && m.data == old(m.data)
+//@   loop 1 invariant m.mx == 1 && m.order == old(m.order) && m.data == old(m.data) && 0 - 1 <= rangeindex && rangeindex <= rangelen - 1 && rangelen == len(m.order)
+//@   loop 1 decreases rangelen - rangeindex
+//@ func (*Tags).Find
+//@   tag C16 C01
+//@   requires m != nil && m.mx == 0 && fn != nil
+//@   oncallback requires m.mx == 1
+//@   oncallback keeps m.mx, m.data, m.order
+//@   ensures m.mx == 0 && m.order == old(m.order) && m.data == old(m.data)
+//@   loop 1 invariant m.mx == 1 && m.order == old(m.order) && m.data == old(m.data) && 0 - 1 <= rangeindex && rangeindex <= rangelen - 1 && rangelen == len(m.order)
+//@   loop 1 decreases rangelen - rangeindex
+//@ func (*Tags).Map
+//@   tag C16 C01
+//@   requires m != nil && m.mx == 0 && fn != nil && m.data != nil
+//@   oncallback requires m.mx == 2
+//@   oncallback keeps m.mx, m.data, m.order
+//@   ensures m.mx == 0 && m.order == old(m.order) && m.data == old(m.data)
+//@   loop 1 invariant m.mx == 2 && m.order == old(m.order) && m.data == old(m.data) && 0 - 1 <= rangeindex && rangeindex <= rangelen - 1 && rangelen == len(m.order)
+//@   loop 1 decreases rangelen - rangeindex
+
+//@ func (*Interactions).Each
+//@   tag C16 C01
+//@   requires m != nil && m.mx == 0 && fn != nil
+//@   oncallback requires m.mx == 1
+//@   oncallback keeps m.mx, m.data, m.order
+//@   ensures m.mx == 0 && m.order == old(m.order) && m.data == old(m.data)
+//@   loop 1 invariant m.mx == 1 && m.order == old(m.order) && m.data == old(m.data) && 0 - 1 <= rangeindex && rangeindex <= rangelen - 1 && rangelen == len(m.order)
+//@   loop 1 decreases rangelen - rangeindex
+//@ func (*Interactions).EachReverse
+//@   tag C16 C01
+//@   requires m != nil && m.mx == 0 && fn != nil
+//@   oncallback requires m.mx == 1
+//@   oncallback keeps m.mx, m.data, m.order
+//@   ensures m.mx == 0 && m.order == old(m.order) && m.data == old(m.data)
+//@   loop 1 invariant m.mx == 1 && m.order == old(m.order) && m.data == old(m.data) && i < len(m.order)
+//@   loop 1 decreases i + 1
+//@ func (*Interactions).EachSafe
+//@   tag C16 C01
+//@   requires m != nil && m.mx == 0 && fn != nil
+//@   oncallback requires m.mx == 1
+//@   oncallback keeps m.mx, m.data, m.order
+//@   ensures m.mx == 0 && m.order == old(m.order) && m.data == old(m.data)
+//@   loop 1 invariant m.mx == 1 && m.order == old(m.order) && m.data == old(m.data) && 0 - 1 <= rangeindex && rangeindex <= rangelen - 1 && rangelen == len(m.order)
+//@   loop 1 decreases rangelen - rangeindex
+//@ func (*Interactions).Find
+//@   tag C16 C01
+//@   requires m != nil && m.mx == 0 && fn != nil
+//@   oncallback requires m.mx == 1
+//@   oncallback keeps m.mx, m.data, m.order
+//@   ensures m.mx == 0 && m.order == old(m.order) && m.data == old(m.data)
+//@   loop 1 invariant m.mx == 1 && m.order == old(m.order) && m.data == old(m.data) && 0 - 1 <= rangeindex && rangeindex <= rangelen - 1 && rangelen == len(m.order)
+//@   loop 1 decreases rangelen - rangeindex
+//@ func (*Interactions).Map
+//@   tag C16 C01
+//@   requires m != nil && m.mx == 0 && fn != nil && m.data != nil
+//@   oncallback requires m.mx == 2
+//@   oncallback keeps m.mx, m.data, m.order
+//@   ensures m.mx == 0 && m.order == old(m.order) && m.data == old(m.data)
+//@   loop 1 invariant m.mx == 2 && m.order == old(m.order) && m.data == old(m.data) && 0 - 1 <= rangeindex && rangeindex <= rangelen - 1 && rangelen == len(m.order)
+//@   loop 1 decreases rangelen - rangeindex
+
+//@ func (*Servers).Each
+//@   tag C16 C01
+//@   requires m != nil && m.mx == 0 && fn != nil
+//@   oncallback requires m.mx == 1
+//@   oncallback keeps m.mx, m.data, m.order
+//@   ensures m.mx == 0 && m.order == old(m.order) && m.data == old(m.data)
+//@   loop 1 invariant m.mx == 1 && m.order == old(m.order) && m.data == old(m.data) && 0 - 1 <= rangeindex && rangeindex <= rangelen - 1 && rangelen == len(m.order)
+//@   loop 1 decreases rangelen - rangeindex
+//@ func (*Servers).EachReverse
+//@   tag C16 C01
+//@   requires m != nil && m.mx == 0 && fn != nil
+//@   oncallback requires m.mx == 1
+//@   oncallback keeps m.mx, m.data, m.order
+//@   ensures m.mx == 0 && m.order == old(m.order) && m.data == old(m.data)
+//@   loop 1 invariant m.mx == 1 && m.order == old(m.order) && m.data == old(m.data) && i < len(m.order)
+//@   loop 1 decreases i + 1
+//@ func (*Servers).EachSafe
+//@   tag C16 C01
+//@   requires m != nil && m.mx == 0 && fn != nil
+//@   oncallback requires m.mx == 1
+//@   oncallback keeps m.mx, m.data, m.order
+//@   ensures m.mx == 0 && m.order == old(m.order) && m.data == old(m.data)
+//@   loop 1 invariant m.mx == 1 && m.order == old(m.order) && m.data == old(m.data) && 0 - 1 <= rangeindex && rangeindex <= rangelen - 1 && rangelen == len(m.order)
+//@   loop 1 decreases rangelen - rangeindex
+//@ func (*Servers).Find
+//@   tag C16 C01
+//@   requires m != nil && m.mx == 0 && fn != nil
+//@   oncallback requires m.mx == 1
+//@   oncallback keeps m.mx, m.data, m.order
+//@   ensures m.mx == 0 && m.order == old(m.order) && m.data == old(m.data)
+//@   loop 1 invariant m.mx == 1 && m.order == old(m.order) && m.data == old(m.data) && 0 - 1 <= rangeindex && rangeindex <= rangelen - 1 && rangelen == len(m.order)
+//@   loop 1 decreases rangelen - rangeindex
+//@ func (*Servers).Map
+//@   tag C16 C01
+//@   requires m != nil && m.mx == 0 && fn != nil && m.data != nil
+//@   oncallback requires m.mx == 2
+//@   oncallback keeps m.mx, m.data, m.order
+//@   ensures m.mx == 0 && m.order == old(m.order) && m.data == old(m.data)
+//@   loop 1 invariant m.mx == 2 && m.order == old(m.order) && m.data == old(m.data) && 0 - 1 <= rangeindex && rangeindex <= rangelen - 1 && rangelen == len(m.order)
+//@   loop 1 decreases rangelen - rangeindex
+
+//@ func (*UserRules).Each
+//@   tag C16 C01
+//@   requires m != nil && m.mx == 0 && fn != nil
+//@   oncallback requires m.mx == 1
+//@   oncallback keeps m.mx, m.data, m.order
+//@   ensures m.mx == 0 && m.order == old(m.order) && m.data == old(m.data)
+//@   loop 1 invariant m.mx == 1 && m.order == old(m.order) && m.data == old(m.data) && 0 - 1 <= rangeindex && rangeindex <= rangelen - 1 && rangelen == len(m.order)
+//@   loop 1 decreases rangelen - rangeindex
+//@ func (*UserRules).EachReverse
+//@   tag C16 C01
+//@   requires m != nil && m.mx == 0 && fn != nil
+//@   oncallback requires m.mx == 1
+//@   oncallback keeps m.mx, m.data, m.order
+//@   ensures m.mx == 0 && m.order == old(m.order) && m.data == old(m.data)
+//@   loop 1 invariant m.mx == 1 && m.order == old(m.order) && m.data == old(m.data) && i < len(m.order)
+//@   loop 1 decreases i + 1
+//@ func (*UserRules).EachSafe
+//@   tag C16 C01
+//@   requires m != nil && m.mx == 0 && fn != nil
+//@   oncallback requires m.mx == 1
+//@   oncallback keeps m.mx, m.data, m.order
+//@   ensures m.mx == 0 && m.order == old(m.order) && m.data == old(m.data)
+//@   loop 1 invariant m.mx == 1 && m.order == old(m.order) && m.data == old(m.data) && 0 - 1 <= rangeindex && rangeindex <= rangelen - 1 && rangelen == len(m.order)
+//@   loop 1 decreases rangelen - rangeindex
+//@ func (*UserRules).Find
+//@   tag C16 C01
+//@   requires m != nil && m.mx == 0 && fn != nil
+//@   oncallback requires m.mx == 1
+//@   oncallback keeps m.mx, m.data, m.order
+//@   ensures m.mx == 0 && m.order == old(m.order) && m.data == old(m.data)
+//@   loop 1 invariant m.mx == 1 && m.order == old(m.order) && m.data == old(m.data) && 0 - 1 <= rangeindex && rangeindex <= rangelen - 1 && rangelen == len(m.order)
+//@   loop 1 decreases rangelen - rangeindex
+//@ func (*UserRules).Map
+//@   tag C16 C01
+//@   requires m != nil && m.mx == 0 && fn != nil && m.data != nil
+//@   oncallback requires m.mx == 2
+//@   oncallback keeps m.mx, m.data, m.order
+//@   ensures m.mx == 0 && m.order == old(m.order) && m.data == old(m.data)
+//@   loop 1 invariant m.mx == 2 && m.order == old(m.order) && m.data == old(m.data) && 0 - 1 <= rangeindex && rangeindex <= rangelen - 1 && rangelen == len(m.order)
+//@   loop 1 decreases rangelen - rangeindex
+
 // ---------------------------------------------------------------- Tags precedence (C19): own Tags, else the URL's Tags, else the automatic tag
 
 //@ pred FirstTags(cs []*directive.Directive, r *directive.Directive) =
